@@ -132,11 +132,21 @@ fn run_impl(ws: &WsCase, cmds: &[Cmd], root: &Path, cwd_root: bool, rep: &mut Re
                                 }
                             }
                         }
-                        Err(_) => {
+                        Err(e) => {
                             outs.push("rw err".into());
                             let (after, _) = list_tree(root);
                             if after != before {
                                 rep.oracle_failure("C14|failed-rewind-changed-workspace", "rewind returned Err but files differ", case.clone());
+                            }
+                            // an edit can always be undone: the checkpoint store was not touched, so a rewind
+                            // may only fail when the file system stands in the way (a covered path is now a
+                            // directory, or one of its ancestors is now a regular file)
+                            let blocked = snap.iter().any(|(p, _)| {
+                                let full = root.join(p);
+                                full.is_dir() || full.ancestors().skip(1).take_while(|a| a.starts_with(root) && *a != root).any(|a| a.is_file())
+                            });
+                            if !blocked {
+                                rep.oracle_failure("C14|rewind-of-restorable-checkpoint-failed", &format!("rewind to an intact checkpoint failed ({e}) although no covered path is blocked by a directory or a file"), case.clone());
                             }
                         }
                     }
